@@ -35,8 +35,9 @@ CLASSES = [
     " \t",                                     # 6 blanks
     "éü߀日本𝔘 ",                        # 7 multi-byte (2,3,4 bytes)
     "();,#:'*%",                               # 8 other punctuation
+    gen.UNICODE_ODDITIES,                      # 9 characters text-handling code tends to special-case
 ]
-CLASS_NAMES = ["plain", "dquote", "backslash", "crlf", "nul", "brace", "blank", "multibyte", "punct"]
+CLASS_NAMES = ["plain", "dquote", "backslash", "crlf", "nul", "brace", "blank", "multibyte", "punct", "oddity"]
 WHOLE = ["", "{5}", "{5+}", "{0}", "{0+}", "LOGOUT", 'a" "b', 'x"\r\nLOGOUT\r\n"', "a\\", '\\"', "{3+}\r\nabc",
          "ACTIVE", "{99999999999}", " ", '"', "\\", "\r", "\n", "\r\n", "{", "a{1}", '""', "{1+}\r\n"]
 OPS = ["skip", "havespace", "getscript", "putscript", "deletescript", "setactive", "renamescript", "checkscript",
